@@ -140,6 +140,29 @@ func (tc *TypeChecker) CheckType(value interface{}, expectedType Type) error {
 		}
 	}
 
+	// Optional and union types are checked member-wise, so that the rules
+	// above (whole JSON numbers are ints) and below (element and field
+	// validation) apply inside them too: `int | str` and `int?` must accept
+	// the body {"n": 1} just as `int` does.
+	switch et := expectedType.(type) {
+	case OptionalType:
+		return tc.CheckType(value, et.InnerType)
+	case UnionType:
+		if len(et.Types) > 0 {
+			var firstErr error
+			for _, member := range et.Types {
+				err := tc.CheckType(value, member)
+				if err == nil {
+					return nil
+				}
+				if firstErr == nil {
+					firstErr = err
+				}
+			}
+			return fmt.Errorf("type mismatch: expected %s: %v", tc.TypeToString(expectedType), firstErr)
+		}
+	}
+
 	actualType := GetRuntimeType(value)
 	if actualType == nil {
 		return fmt.Errorf("cannot determine type of value: %T", value)
@@ -157,6 +180,19 @@ func (tc *TypeChecker) CheckType(value interface{}, expectedType Type) error {
 			if arr, ok := value.([]interface{}); ok {
 				for i, elem := range arr {
 					if err := tc.CheckType(elem, arrayType.ElementType); err != nil {
+						return fmt.Errorf("array element %d: %v", i, err)
+					}
+				}
+			}
+		}
+	}
+
+	// List[T] is the generic spelling of [T]: validate the elements as well
+	if genericType, ok := expectedType.(GenericType); ok && len(genericType.TypeArgs) == 1 {
+		if named, ok := genericType.BaseType.(NamedType); ok && named.Name == "List" {
+			if arr, ok := value.([]interface{}); ok {
+				for i, elem := range arr {
+					if err := tc.CheckType(elem, genericType.TypeArgs[0]); err != nil {
 						return fmt.Errorf("array element %d: %v", i, err)
 					}
 				}
